@@ -190,8 +190,31 @@ def _temporaries_boundary(ctx, rep):
     rep.ob('temporaries.boundary-below-sentinel', 'after a collection the boundary is one below the address of the lowest permanent string', ok, detail, ctx.where(cg))
 
 
+REGISTRATION_EXEMPT = {
+    ('StringFunctions.string_', 'char'): 'the registered value is a bytes object, not a String: the collector only follows String values, so a stale entry is never dereferenced',
+}
+
+
+def _registrations_released(ctx, rep):
+    """A value registered as a collector root (temp_values.add) is released on every exit: the release sits in a
+    `finally` that runs whenever the registration has happened.  A stale root that was a temporary string is
+    dereferenced by the next collection after the temporary has been freed (KeyError)."""
+    from ..pairing import registrations
+    n = 0
+    for fn in ctx.idx.functions('pcbasic/basic/'):
+        who = qualname(fn).split(':')[1]
+        for call, text, rel in registrations(fn):
+            n += 1
+            reason = REGISTRATION_EXEMPT.get((who, text))
+            rep.ob('roots.registration-released-on-every-exit', '%s: temp_values.add(%s)' % (who, text), bool(rel) or reason is not None,
+                   reason or 'no `finally` releases `%s` on the paths that leave after the registration (early return, BASIC error): the value stays a collector root for ever; '
+                   'if it is a temporary string the next garbage collection dereferences freed string space' % text, ctx.where(call))
+    rep.floor('roots.registration-released-on-every-exit', n, 8, 'registrations in temp_values')
+
+
 def check(ctx, rep):
     _values_read_after_a_possible_collection(ctx, rep)
+    _registrations_released(ctx, rep)
     _temporaries_boundary(ctx, rep)
     from . import c12, _share
     _share.share(ctx, rep, c12, ('erase.',), 'ERASE removes the array (and with it its strings) from every table the collector reads')
@@ -432,6 +455,7 @@ def variants(ctx):
         Va('collector-does-not-rewrite', 'break', ST,
            in_fn('StringSpace.collect_garbage', lambda fn: mu.replace_stmt(fn, mu.stmt_has("view[:] = struct.pack('<BH'", ast.Assign), 'self.store(string, check_free=False)')),
            expect='collector.rewrites'),
+        Va('left-releases-on-normal-path-only', 'break', 'pcbasic/basic/values/values.py', in_fn('StringFunctions.left_', _release_inline), expect='roots.registration-released-on-every-exit'),
         Va('store-moves-before-check', 'break', ST, in_fn('StringSpace.store', _move_check_after), expect='store.check-before-move'),
         Va('sentinel-may-be-empty', 'break', ST,
            in_fn('StringSpace.collect_garbage', lambda fn: mu.replace_expr(fn, mu.text_is('self._temp is not None and length > 0'), 'self._temp is not None')),
@@ -479,4 +503,19 @@ def _lset_late(fn):
     del fn.body[i:i + 2]
     j = fn.body.index(st[0])
     fn.body[j:j] = block
+    return True
+
+
+def _release_inline(fn):
+    """Undo the try/finally of left_: the release only happens before the last return (the pinned tree's shape)."""
+    tr = [t for t in fn.body if isinstance(t, ast.Try) and t.finalbody]
+    if len(tr) != 1:
+        return False
+    tr = tr[0]
+    body = list(tr.body)
+    last = body[-1]
+    if not isinstance(last, ast.Return):
+        return False
+    i = fn.body.index(tr)
+    fn.body[i:i + 1] = body[:-1] + ast.parse('result = 0').body[:0] + tr.finalbody + [last]
     return True
